@@ -102,7 +102,7 @@ def tip_vector(dt, sym, use_amb, tip_states):
         v = [0.0] * len(codes)
         v[codes.index(a)] = 1.0
         return v
-    if a is not None and not tip_states:  # declared ambiguity = union of states (general data type)
+    if a is not None and amb:  # declared ambiguity = union of states when ambiguities are on, missing otherwise (as for the other data types)
         return [1.0 if c in a else 0.0 for c in codes]
     return [1.0] * len(codes)
 
